@@ -106,6 +106,11 @@ EQUIVALENT = [
     ('eq-record-fill-order', 'C19', 'droop/record.py',
      "        self['title'] = E.title\n        self['droop_name'] = common.droopName\n",
      "        self['droop_name'] = common.droopName\n        self['title'] = E.title\n"),
+    ('eq-interrupt-marker-reworded', 'C19', 'droop/election.py',
+     "            self.log('** count interrupted; this round is incomplete **')\n            self.intr_logged = True\n"
+     "        return self.erecord.report(intr)",
+     "            self.log('** count stopped by the user; this round is incomplete **')\n"
+     "            self.intr_logged = True\n        return self.erecord.report(intr)"),
     ('eq-profile-error-wording', 'C16', 'droop/profile.py',
      "raise ElectionProfileError('bad blt file: unexpected end-of-file')",
      "raise ElectionProfileError('bad blt file: premature end of file')"),
